@@ -800,9 +800,29 @@ def run_tomo(ctx, mon, fx):
             return None
         ctx.count("tomography-accepted")
         try:
-            qt.generate_prob_dists_sequence(true_obj)   # executes every schedule (calc_prob_dist hook judges)
+            seq = qt.generate_prob_dists_sequence(true_obj)   # executes every schedule (calc_prob_dist hook judges)
         except Exception:  # noqa: BLE001
             ctx.count("tomography-execution-raised")
+            return qt
+        # the tomography's own execution path of the accepted schedules (its model of the same circuits): must run
+        # and give, per schedule, a normalised distribution of the circuit's length
+        if len(seq) == 0:
+            ctx.count("open:tomography-with-empty-schedule-list:nothing-to-execute")
+            return qt
+        ok, pd = ctx.attempt(qt.calc_prob_dists, true_obj)
+        if not ok:
+            ctx.violation(f"{cls.__name__}.calc_prob_dists:accepted-schedules-fail:" + ctx.exc_key(pd), {"schedules": repr(schedules)[:200]})
+            return qt
+        lens_c = [int(np.size(x)) for x in seq]
+        lens_m = [int(np.size(x)) for x in pd]
+        if not ctx.truth("tomography.model-execution:lengths", lens_c == lens_m,
+                         key=f"{cls.__name__}.calc_prob_dists:accepted-schedules:wrong-distribution-lengths",
+                         info={"circuit": lens_c, "model": lens_m, "schedules": repr(schedules)[:200]}):
+            return qt
+        for x in pd:
+            x = np.asarray(x, dtype=float)
+            ctx.num("tomography.model-execution:normalised", max(abs(float(x.sum()) - 1.0), max(0.0, -float(x.min()))), 1e-9, 1e-6,
+                    key=f"{cls.__name__}.calc_prob_dists:accepted-schedules:not-a-normalised-distribution")
         return qt
 
     A = WELL_TYPED
@@ -824,6 +844,8 @@ def run_tomo(ctx, mon, fx):
             own = [[("state", 0)] + [(m, 0) for m in TOMO_MIDDLE[kind]] + [("povm", 0)]]
             own.append([own[0][0], *own[0][1:-1], ("povm", 1)] if kind != "povmt" else [("state", 1), ("povm", 0)])
             make([list(own[0]), list(own[1])])
+            make([list(own[1]), list(own[0])])                  # not in list order
+            make([list(own[0]), list(own[1]), list(own[0])])    # repetition: more schedules than POVMs
             make([tuple(own[0])])
             make((list(own[0]),))
             others = [[("state", 0), ("povm", 0)], [("state", 0), ("gate", 0), ("povm", 0)], [("state", 0), ("mprocess", 0), ("povm", 0)],
